@@ -313,3 +313,8 @@ impl vstd::std_specs::convert::FromSpecImpl<StdError> for AnyError {
     open spec fn obeys_from_spec() -> bool { true }
     open spec fn from_spec(e: StdError) -> AnyError { AnyError }
 }
+
+// cosmwasm_std::testing::mock_env(): a fixed environment (contents uninterpreted)
+pub uninterp spec fn spec_mock_env() -> Env;
+#[verifier::external_body]
+pub fn mock_env() -> (r: Env) ensures r == spec_mock_env() { unimplemented!() }
